@@ -407,12 +407,14 @@ func runForwarder(t *testing.T, faults bool) {
 			time.Sleep(2200 * time.Millisecond)
 			aged = true
 		}
+		r.mu.Lock() // the forwarder is already running (its start-up no-op post reads the script)
 		r.script = func(idx, attempt int) string {
 			if s, ok := scripts[idx]; ok && attempt < len(s) {
 				return s[attempt]
 			}
 			return "2xx"
 		}
+		r.mu.Unlock()
 		_ = alwaysFail
 		defer func() {
 			r.cancel()
